@@ -19,7 +19,7 @@ Mirrors the **current** code (after the fixes 97e2cea: backspace writes a NUL; 8
 * `fault` is set by anything that would leave the scratch union (a string without terminator inside
   it, a write beyond it, a NULL table entry dereferenced, `assert(0)`): C15 proves it stays `false`;
 * `wlog` is a ghost log of the offsets of all single-byte writes (not the `memset` of `do_prompt`),
-  `lines` a ghost log of the texts handed to `do_tokenize`; `stuck` is set when a fuel-bounded loop
+  `lines` a ghost log of the texts handed to `do_tokenize`, `eaten` of the characters taken out of the ring; `stuck` is set when a fuel-bounded loop
   of the model runs out of fuel (C15 proves the fuel suffices).
 -/
 namespace Librfn.Model.Console
@@ -82,13 +82,14 @@ structure St where
   stuck : Bool                    -- a bounded loop of the model ran out of fuel (never a silent truncation)
   wlog : List Nat                 -- ghost: offsets of all single-byte stores into the scratch union
   lines : List (List Byte)        -- ghost: the text of every line handed to do_tokenize
+  eaten : List Byte               -- ghost: every character console_run has taken out of the ring
   deriving Repr
 
 /-- `console_init` (memset 0, ring initialised, fibre made runnable) -/
 def init : St :=
   { ring := [], mem := List.replicate scratchSize 0, bufp := 0, argc := 0,
     argv := List.replicate argvLen none, cmd := none, fpt := 0, pt := 0, evali := 0, runnable := true,
-    hlock := false, hidx := 0, out := [], caps := [], fault := false, stuck := false, wlog := [], lines := [] }
+    hlock := false, hidx := 0, out := [], caps := [], fault := false, stuck := false, wlog := [], lines := [], eaten := [] }
 
 def St.print (s : St) (t : String) : St := { s with out := s.out ++ bytes t }
 def St.printBytes (s : St) (t : List Byte) : St := { s with out := s.out ++ t }
@@ -297,11 +298,11 @@ def loopW (tab : Table) : List Byte → St → St × PtState
   | [], s => ({ s with ring := [], fpt := 1 }, .waiting)
   | ch :: rest, s =>
     if ch = 10 ∨ s.bufp ≥ 79 then
-      let s1 := { findCommand tab (doTokenize { s with ring := rest, fpt := 1 }) with pt := 0, fpt := 2 }
+      let s1 := { findCommand tab (doTokenize { s with ring := rest, fpt := 1, eaten := s.eaten ++ [ch] }) with pt := 0, fpt := 2 }
       let r := runCmd tab s1
       if r.2 = .yielded ∨ r.2 = .waiting then r
       else loopW tab rest (finishCmd r.1 r.2)
-    else loopW tab rest (editChar { s with ring := rest, fpt := 1 } ch)
+    else loopW tab rest (editChar { s with ring := rest, fpt := 1, eaten := s.eaten ++ [ch] } ch)
 
 /-- `console_run` -/
 def consoleRun (tab : Table) (s : St) : St × PtState :=
